@@ -749,6 +749,63 @@ func runC02(r *Run) {
 	} else {
 		r.Bad("R16", "anchor/Keeper.GetAccount", "", "not found")
 	}
+	// R11 (continued): the balance the staking mirror measures is the bank balance — the StateDB holds bank balances,
+	// spendable (unlocked) amounts differ from them for every vesting account
+	if gb, ok := P.FnOK("(x/staking/keeper.Keeper).GetBondDenomBalance"); ok {
+		okBal := false
+		eachInstr(gb, func(in ssa.Instruction) {
+			ret, isR := in.(*ssa.Return)
+			if !isR || len(ret.Results) != 1 {
+				return
+			}
+			sl := backSlice(ret.Results[0])
+			okBal = sl.HasCall(func(g CallInfo) bool { return g.Name == "GetBalance" }) &&
+				!sl.HasCall(func(g CallInfo) bool { return g.Name == "SpendableCoins" || g.Name == "SpendableCoin" || g.Name == "LockedCoins" || g.Name == "Sub" })
+		})
+		r.Check(okBal, "R11", fnID(gb)+"#measures-the-bank-balance", P.Pos(fnPos(gb)), "returns bank GetBalance of the bond denomination, unedited",
+			"the helper the staking precompile's mirror measures with does not return the plain bank balance (spendable coins, or a balance net of something): for a vesting account the before/after difference is then not what the bank moved, and Commit mints or burns the gap")
+	} else {
+		r.Bad("R11", "anchor/GetBondDenomBalance", "", "not found")
+	}
+	r.Rule("R18", "FLOW.the-caller-sees-the-denomination-that-moved: the ICS-20 precompile decides whether to mirror the sender's bank debit in the StateDB by looking at msg.Token.Denom *after* the transfer keeper returned — and Haqq's transfer wrapper moves the pair's coin when the message names the pair's erc20/… alias. The two agree only because the wrapper rewrites the denomination in the caller's own message: every call of the embedded ibc-go Transfer in the wrapper is handed the very pointer the wrapper received, and the denomination is stored through that pointer (never into a copy) — with a copy the precompile still sees the alias, skips the mirror, and a journal-dirty sender gets the escrowed amount minted back at Commit")
+	if wt, ok := P.FnOK("(x/ibc/transfer/keeper.Keeper).Transfer"); ok {
+		var msgP *ssa.Parameter
+		for _, p := range wt.Params {
+			if p.Name() == "msg" {
+				msgP = p
+			}
+		}
+		okArg, nInner := msgP != nil, 0
+		eachCall(wt, func(ci CallInfo) {
+			if ci.Name != "Transfer" || ci.Static == nil || isHaqqPath(fnPkgPath(ci.Static)) {
+				return
+			}
+			nInner++
+			same := false
+			for _, a := range ci.Instr.Common().Args {
+				if stripValue(a) == ssa.Value(msgP) {
+					same = true
+				}
+			}
+			if !same {
+				okArg = false
+			}
+		})
+		okStore := false
+		eachInstr(wt, func(in ssa.Instruction) {
+			st, ok := in.(*ssa.Store)
+			if !ok {
+				return
+			}
+			if _, f, ok := fieldOfAddr(st.Addr); ok && f == "Denom" && msgP != nil && addrRoot(st.Addr) == ssa.Value(msgP) {
+				okStore = true
+			}
+		})
+		r.Check(okArg && okStore && nInner >= 1, "R18", fnID(wt)+"#rewrites-the-callers-message", P.Pos(fnPos(wt)), "the embedded Transfer gets the received pointer; Token.Denom is stored through it",
+			"Haqq's transfer wrapper hands ibc-go a copy of the message (or no longer rewrites the denomination in place): the ICS-20 precompile, which reads msg.Token.Denom after the call to decide whether to mirror the debit, still sees the erc20/… alias and skips the mirror — the sender's debit is overwritten at Commit")
+	} else {
+		r.Bad("R18", "anchor/x/ibc/transfer wrapper Transfer", "", "not found")
+	}
 	r.Rule("R17", "PATH.destruction-clears-the-coins-on-every-path: SELFDESTRUCT has paid the contract's balance to the beneficiary inside the EVM; the keeper's DeleteAccount is what takes the coins away from the destroyed address in the bank. Every return of DeleteAccount that is not a failure follows SetBalance(addr, 0) — also the early return for an address that has no auth account (a contract created onto a coin-holding address and destroyed in the same transaction never gets one): otherwise the coins exist twice, and with a CREATE2 factory as often as the factory is called")
 	if da, ok := P.FnOK("(*x/evm/keeper.Keeper).DeleteAccount"); ok {
 		isClear := isCallMatching(func(ci CallInfo) bool { return ci.Name == "SetBalance" })
